@@ -3,10 +3,10 @@
 # existing suites of the touched packages still pass with it.  Results -> <dir>/confirm.log
 #   confirm_seed.sh <seeded-dir> [demo package dir, default pkg/server]
 set -u
-D=$(cd "$1" && pwd); PKG=${2:-pkg/server}
+D=$(cd "$1" && pwd); PKG=${2:-pkg/server}; BASE=${3:-HEAD}
 N=$(basename $D); WT=/tmp/confirm-$N
 git -C /repo worktree remove --force $WT 2>/dev/null
-git -C /repo worktree add -q $WT HEAD || exit 2
+git -C /repo worktree add -q --detach $WT $BASE || exit 2
 cd $WT
 cp go.mod /tmp/confirm-$N.mod; cp go.sum /tmp/confirm-$N.sum
 export GOFLAGS=-mod=mod GOPROXY=off
